@@ -92,12 +92,62 @@ pub fn run_inprocess(seed: u64, cases: u32, len: (usize, usize), stats: &mut Sta
     });
     match res {
         Ok(()) => None,
-        Err(TestError::Fail(reason, value)) => Some(Failure { choices: value, message: reason.message().to_string() }),
+        Err(TestError::Fail(reason, value)) => {
+            // second shrinking pass on the choice sequence: zero out chunks (all-zero choices are the
+            // structurally simplest decisions), which proptest's element-wise shrinking rarely reaches
+            let mut j = judge_c.borrow_mut();
+            let mut msg = reason.message().to_string();
+            let best = zero_chunks(&value, 600, &mut |c| match (*j)(c, &mut scratch.borrow_mut()) {
+                Ok(()) => false,
+                Err(m) => {
+                    msg = m;
+                    true
+                }
+            });
+            // the message must belong to the final sequence
+            if let Err(m) = (*j)(&best, &mut scratch.borrow_mut()) {
+                msg = m;
+            }
+            Some(Failure { choices: best, message: msg })
+        }
         Err(TestError::Abort(reason)) => {
             eprintln!("proptest aborted: {}", reason.message());
             std::process::exit(2);
         }
     }
+}
+
+/// Delta-debugging style pass over a failing choice sequence: try to replace chunks by zeros (and to
+/// drop a zero tail), keeping every replacement under which the case still fails.
+pub fn zero_chunks(choices: &[u32], max_evals: usize, fails: &mut dyn FnMut(&[u32]) -> bool) -> Vec<u32> {
+    let mut best = choices.to_vec();
+    let mut evals = 0;
+    let mut size = best.len().div_ceil(2).max(1);
+    loop {
+        let mut start = 0;
+        while start < best.len() {
+            let end = (start + size).min(best.len());
+            if best[start..end].iter().any(|x| *x != 0) {
+                if evals >= max_evals {
+                    return best;
+                }
+                let mut cand = best.clone();
+                for x in &mut cand[start..end] {
+                    *x = 0;
+                }
+                evals += 1;
+                if fails(&cand) {
+                    best = cand;
+                }
+            }
+            start = end;
+        }
+        if size == 1 {
+            break;
+        }
+        size = size.div_ceil(2);
+    }
+    best
 }
 
 /// Sample `n` value trees (kept for later shrinking).
